@@ -307,6 +307,7 @@ Proof.
   - destruct (unwind (S (List.length (cos s))) rets s) as [s1 l1] eqn:U.
     pose proof (unwind_unw _ _ _ _ _ I U j) as T.
     destruct (halted s1); simpl; apply K, unw_trk; exact T.
+  - simpl. apply K, trk_same.
 Qed.
 
 (* Dead is absorbing: a dead coroutine stays dead until destroy removes it *)
